@@ -288,6 +288,55 @@ def _mk(ix):
 HARNESSES = dict(("f%%d" %% i, _mk(i)) for i in range(len(OPS)))
 
 
+# ---------------------------------------------------------------------------- re-parse after failed parses
+def _expr_class():
+    """a class whose deferred expressions can FAIL half way (division by a field that is zero): built afresh for every path
+    so that anything a failed evaluation leaves behind in the class cannot leak from one explored path into the next"""
+    class E(Packet):
+        __bisturi__ = dict(OPTS)
+        t = Bits(2)
+        w = Bits(2)
+        k = Bits(4)
+        c = Int(1).repeated(t // w)
+        z = Int(1)
+    return E
+
+
+def _obs_e(q):
+    if q is None:
+        return None
+    try:
+        out = q.pack()
+    except PacketError:
+        out = "raises"
+    return (q.t, q.w, q.k, list(q.c), q.z, out)
+
+
+def reparse(rq: bytes, r1: bytes, r2: bytes) -> str:
+    """parsing the same bytes gives the same packet before and after other inputs - including inputs whose parse FAILS
+    inside a deferred expression - were parsed by the same class; the packet parsed first is not changed either"""
+    from vlib.cachefs import untraced
+    with untraced():
+        E = _expr_class()
+    rq = fix(rq, 4)
+    r1 = fix(r1, 2)
+    r2 = fix(r2, 2)
+    q1 = E.unpack(rq, silent=True)
+    first = _obs_e(q1)
+    f1 = E.unpack(r1, silent=True)
+    f2 = E.unpack(r2, silent=True)
+    if _obs_e(q1) != first:
+        return "FAIL sig=C13|bystander-field-values-changed|bystander=E(parsed)|other=E|history=unpack-unpack"
+    q2 = E.unpack(rq, silent=True)
+    again = _obs_e(q2)
+    if first != again:
+        return "FAIL sig=C13|same-bytes-parse-differently-after-other-parses|E failed=%%r first=%%r again=%%r" %% (
+            (f1 is None, f2 is None), first, again)
+    if f1 is None or f2 is None:
+        return "ok:same-after-failed-parse"
+    return "ok:same"
+
+
 def purity(ra: bytes, rb: bytes, rx: bytes) -> str:
     """repeated pack() returns the same bytes and leaves every field unchanged; defaults are not shared"""
     reset_shared_state()
@@ -358,6 +407,13 @@ def build(tier, seed):
                              "symbolic bytes; in-place changes with symbolic values",
                     "assertion": "the bystander and any packet constructed later are unchanged; no nested list / packet is shared",
                     "decl_text": "LSub(n; objs=Int(1).repeated(n)); LInner(bag=Ref(LSub); w); LOuter(box=Ref(LInner); t)"})
+        obs.append({"id": "C13/reparse/%s" % gen, "module": "c13_reparse_%s" % gen, "source": src, "fn": "reparse",
+                    "required_tags": ["same", "same-after-failed-parse"], "timeout": 240, "collect_all": True,
+                    "bound": "class E (the count is a deferred expression dividing by a 2-bit field: evaluation fails when it "
+                             "is 0), built afresh per path; first input 4 symbolic bytes, two further inputs of 2 symbolic bytes each",
+                    "assertion": "unpack(rq) observed before == unpack(rq) observed after two other parses (failed or not); the first "
+                                 "packet is unchanged",
+                    "decl_text": "E(t,w Bits(2); k Bits(4); c Int(1).repeated(t // w); z Int(1))"})
         obs.append({"id": "C13/purity/%s" % gen, "module": "c13_purity_%s" % gen, "source": src, "fn": "purity",
                     "required_tags": ["pure"], "bound": "packets parsed from symbolic bytes (A: %d, B: 5, RX: 4) and default-constructed" % la,
                     "assertion": "three consecutive observations (fields + pack()) are identical; default lists / prototypes are fresh per instance",
